@@ -316,6 +316,12 @@ func runScenario(sc scenario, e *env) (res result) {
 			rig.HandshakeDone(i)
 		}
 		switch p.Phase {
+		case "tlsclosing":
+			// the client leaves; the handler runs into EOF and closes the *tls.Conn, whose close_notify
+			// write is held: the handler is now in the middle of its own deferred conn.Close()
+			rig.GateAllWrites(i)
+			r.vanish(c)
+			r.waitEv("WrHeld", i, 1)
 		case "fresh", "pphdr", "tlshello":
 		case "parthead":
 			t := r.reqText(i, false)
@@ -528,6 +534,7 @@ func runScenario(sc scenario, e *env) (res result) {
 	for i := range sc.Conns {
 		rig.ReleaseRT(i)
 		rig.ReleaseWrite(i)
+		rig.ReleaseAllWrites(i)
 	}
 	for _, c := range late {
 		if c.id >= 0 {
@@ -626,6 +633,8 @@ func aftersOf(phase string) []string {
 		return []string{"hdr", "gone", "stay"}
 	case "tlshello":
 		return []string{"hs", "gone", "stay"}
+	case "tlsclosing":
+		return []string{"stay"}
 	}
 	return []string{"stay"}
 }
@@ -648,7 +657,7 @@ func genScenarios(tier string, r *rng.R) []scenario {
 			ph = []string{"pphdr", "fresh", "upstream"}
 		}
 		if tl {
-			ph = []string{"tlshello", "fresh", "upstream", "writeblocked", "keepalive"}
+			ph = []string{"tlshello", "tlsclosing", "fresh", "upstream", "writeblocked", "keepalive"}
 		}
 		for _, p := range ph {
 			for _, a := range aftersOf(p) {
@@ -657,7 +666,7 @@ func genScenarios(tier string, r *rng.R) []scenario {
 						continue // would wait for ever
 					}
 					for _, van := range []bool{false, true} {
-						if van && (a == "send" || a == "hdr" || a == "hs") {
+						if van && (a == "send" || a == "hdr" || a == "hs" || p == "tlsclosing") {
 							continue
 						}
 						if van && (pp || tl) {
@@ -699,12 +708,12 @@ func genScenarios(tier string, r *rng.R) []scenario {
 				ph = "pphdr"
 			}
 			if tl {
-				ph = []string{"tlshello", "fresh", "upstream", "writeblocked", "keepalive", "parthead"}[r.Intn(6)]
+				ph = []string{"tlshello", "tlsclosing", "fresh", "upstream", "writeblocked", "keepalive", "parthead"}[r.Intn(7)]
 			}
 			as := aftersOf(ph)
 			a := as[r.Intn(len(as))]
-			van := r.Chance(1, 6) && a != "send" && a != "hdr" && a != "hs" && ph != "pphdr" && ph != "tlshello"
-			gated := ph == "upstream" || ph == "writeblocked" || ph == "tundial"
+			van := r.Chance(1, 6) && a != "send" && a != "hdr" && a != "hs" && ph != "pphdr" && ph != "tlshello" && ph != "tlsclosing"
+			gated := ph == "upstream" || ph == "writeblocked" || ph == "tundial" || ph == "tlsclosing"
 			if a == "stay" && (!van || gated) {
 				stay = true // this connection keeps Shutdown waiting (a held step stays held even if the client left)
 			}
